@@ -61,8 +61,24 @@ Fixpoint reach (fuel : nat) (todo seen : list string) : list string :=
     end
   end.
 
+(* The model is read from the package as users build it (no build tag); the harness runs it built with the verif tag
+   (the randomness hook).  The two builds may differ only by the two add-only hook files, byte for byte as committed
+   (hook commits ebe586e, c2be5f6 of /repo): any other file whose inclusion depends on the tag - in either direction -
+   means that what is executed and what is modelled are different programs. *)
+Definition pinned_tag_dependent_files : list (string * string) := [
+  ("verif_hook.go", "c3d4e2d20d261a9b5bcf043ffac851e01fb35faae449cf717ca97e1cf54b1fe0");
+  ("update-wordlist/verif_hook.go", "867bd44182fc18bf73742c63b9420bc90d384b143340dbda39109304a2c6fa6c")].
+Definition pair_eqb (a b : string * string) : bool := String.eqb (fst a) (fst b) && String.eqb (snd a) (snd b).
+Fixpoint pairs_eqb (l1 l2 : list (string * string)) : bool :=
+  match l1, l2 with
+  | [], [] => true
+  | a :: r1, b :: r2 => pair_eqb a b && pairs_eqb r1 r2
+  | _, _ => false
+  end.
+Definition build_files_ok : bool := pairs_eqb tag_dependent_files pinned_tag_dependent_files.
+
 Definition reach_ok (f : string) : bool :=
-  fn_defined f &&
+  build_files_ok && fn_defined f &&
   forallb (fun g => forallb allowed (calls_of g)) (reach (4 * length fn_calls + 8) [f] []).
 
 Lemma calls_validator : reach_ok "CheckMnemonic" = true /\ reach_ok "IsMnemonicValid" = true.
@@ -75,7 +91,7 @@ Lemma calls_lang : reach_ok "Language.String" = true /\ reach_ok "Language.list"
 Proof. repeat split; vm_compute; reflexivity. Qed.
 
 (* every function of the package, reachable or not (nothing hides in an unreferenced helper or an init) *)
-Definition all_calls_ok : bool := forallb (fun e => forallb allowed (snd e)) fn_calls.
+Definition all_calls_ok : bool := build_files_ok && forallb (fun e => forallb allowed (snd e)) fn_calls.
 Lemma all_calls_ok_holds : all_calls_ok = true.
 Proof. vm_compute. reflexivity. Qed.
 
